@@ -719,6 +719,19 @@ func init() {
 					}
 				}
 			}
+			// destinations whose data order differs from the operands' (incr must still add by logical position; plain reuse of
+			// the other order is C16's open finding and excluded there by region)
+			for _, op := range []string{"Add", "Sub", "Mul"} {
+				for _, tr := range [][3]string{{"C", "C", "F"}, {"F", "F", "C"}, {"C", "F", "F"}, {"F", "C", "C"}} {
+					for _, mode := range []string{"incr", "reuse"} {
+						for _, form := range []string{"TT", "TS"} {
+							n++
+							out = append(out, mkInst("vhC06Bin", map[string]interface{}{"dtype": dts[n%len(dts)], "op": op, "form": form, "shape": sh, "la": tr[0], "lb": tr[1], "api": []string{"func", "method"}[n%2], "mode": mode, "ld": tr[2]},
+								"dtype", "op", "form", "la", "lb", "api", "mode", "ld"))
+						}
+					}
+				}
+			}
 			variants := []string{"bool", "same", "unsafe", "reuse-bool", "reuse-same"}
 			for oi, op := range cmpOps {
 				for fi, form := range []string{"TT", "TS", "ST"} {
@@ -1451,6 +1464,19 @@ func init() {
 							for _, form := range []string{"TS", "ST"} {
 								n++
 								out = append(out, mkInst("vhC06Bin", map[string]interface{}{"dtype": []string{"float64", "int"}[n%2], "op": op, "form": form, "shape": sh, "la": "F", "lb": "C", "api": "func", "mode": "", "ld": "C"}, "dtype", "op", "form", "shape", "la"))
+							}
+						}
+					}
+				}
+				if len(sh) == 2 {
+					for _, op := range []string{"Add", "Mul"} {
+						for _, tr := range [][3]string{{"C", "C", "F"}, {"F", "F", "C"}, {"C", "F", "F"}, {"F", "C", "C"}} {
+							for _, mode := range []string{"incr", "reuse"} {
+								for _, form := range []string{"TT", "TS"} {
+									n++
+									out = append(out, mkInst("vhC06Bin", map[string]interface{}{"dtype": []string{"float64", "int", "float32"}[n%3], "op": op, "form": form, "shape": sh, "la": tr[0], "lb": tr[1], "api": "func", "mode": mode, "ld": tr[2]},
+										"dtype", "op", "form", "shape", "la", "lb", "mode", "ld"))
+								}
 							}
 						}
 					}
